@@ -110,6 +110,16 @@ func (fr *Frame) bigCall(st *State, fn *ssa.Function, args []Value) (Value, bool
 		return set(F.Mul(ld(1), ld(2)))
 	case "Neg":
 		return set(F.Neg(ld(1)))
+	case "Rsh", "Lsh": // shifts by a constant count; Rsh is an arithmetic shift (floor division), as documented
+		nt := fr.asTerm(args[2])
+		if nt.Op != OConst || !nt.K.IsInt64() || nt.K.Sign() < 0 || nt.K.Int64() > 4096 {
+			unsup("big.Int.%s by a non-constant count", fn.Name())
+		}
+		n := nt.K.Int64()
+		if fn.Name() == "Lsh" {
+			return set(F.Mul(ld(1), F.Int(pow2(int(n)))))
+		}
+		return set(F.Div(ld(1), F.Int(pow2(int(n)))))
 	case "Abs":
 		return set(abs(ld(1)))
 	case "Mod": // Euclidean modulus (result in [0, |m|)); m == 0 panics
